@@ -182,7 +182,7 @@ func (nc *netConn) Read(p []byte) (int, error) {
 		if err != nil {
 			return n, err
 		}
-		if n == 0 {
+		if n == 0 && len(p) > 0 {
 			continue
 		}
 		return n, nil
@@ -196,6 +196,13 @@ func (nc *netConn) read(p []byte) (int, error) {
 
 	if nc.readEOFed {
 		return 0, io.EOF
+	}
+
+	if len(p) == 0 {
+		// Nothing can be read into an empty buffer. Without this Read would wait
+		// for a message it cannot take anything from and then ask the message
+		// reader for zero bytes over and over, never returning.
+		return 0, nil
 	}
 
 	if nc.reader == nil {
